@@ -96,8 +96,10 @@ type World struct {
 	G                  *genState
 	R                  *RelState
 	PendingVoted       int
-	Bundle             *txBundle    // non-nil while the sub-steps of a rel.bundle step are applied
-	pendingTruths      []*VoteTruth // per-message truths of the transaction being submitted
+	BadSigTx           map[string]bool // hashes of transactions the actors built with a signature that does not verify
+	decodedBad         map[sdk.Tx]bool // decoded forms of such transactions (see decodeTx)
+	Bundle             *txBundle       // non-nil while the sub-steps of a rel.bundle step are applied
+	pendingTruths      []*VoteTruth    // per-message truths of the transaction being submitted
 	PendingHashes      int
 	JunkVotes          int
 	Tainted            bool
